@@ -3,7 +3,7 @@
 #![allow(dead_code)]
 use fast_image_resize as fir;
 use fir::images::{TypedCroppedImage, TypedCroppedImageMut, TypedImage, TypedImageRef};
-use fir::pixels::{F32, U16x2, U8x4, U8};
+use fir::pixels::{F32, U16x2, U8x2, U8x3, U8x4, U8};
 use fir::{CpuExtensions, FilterType, ImageView, ImageViewMut, MulDiv, PixelTrait, ResizeAlg, ResizeOptions, Resizer};
 
 // ---------------------------------------------------------------------------------------------
@@ -129,8 +129,12 @@ pub enum Body {
     HorizCrop,
     /// alpha-aware two-pass resize of a fractional crop box
     AlphaResizeCrop,
+    /// width-only 4x down-scale with Lanczos3 (24 taps per window: the long-kernel branches of the
+    /// SIMD kernels, whose one-row and four-row variants are separate code) - the rows a band
+    /// finishes with the one-row kernel depend on the band heights
+    HorizLong,
 }
-pub const BODIES: [Body; 9] = [Body::Horiz, Body::Vert, Body::TwoPass, Body::MulAlpha, Body::DivAlphaInplace, Body::AlphaResize, Body::Nearest, Body::HorizCrop, Body::AlphaResizeCrop];
+pub const BODIES: [Body; 10] = [Body::Horiz, Body::Vert, Body::TwoPass, Body::MulAlpha, Body::DivAlphaInplace, Body::AlphaResize, Body::Nearest, Body::HorizCrop, Body::AlphaResizeCrop, Body::HorizLong];
 
 #[derive(Clone, Copy, Debug, PartialEq)]
 pub enum Pt {
@@ -138,8 +142,13 @@ pub enum Pt {
     U8x4,
     U16x2,
     F32,
+    U8x2,
+    U8x3,
 }
+/// the types of the loom exploration
 pub const PTS: [Pt; 4] = [Pt::U8, Pt::U8x4, Pt::U16x2, Pt::F32];
+/// the types of the serial band orders and of the real-rayon engines (a superset, same indices)
+pub const PTS_EXT: [Pt; 6] = [Pt::U8, Pt::U8x4, Pt::U16x2, Pt::F32, Pt::U8x2, Pt::U8x3];
 
 pub fn be_of(i: usize) -> CpuExtensions {
     match i {
@@ -166,13 +175,14 @@ pub fn src_size(c: &Case) -> (u32, u32) {
         Body::Vert => (c.dw, up(c.dh)),
         Body::TwoPass | Body::AlphaResize | Body::Nearest => (up(c.dw), up(c.dh)),
         Body::HorizCrop => (up(c.dw), (c.dh + 8).min(70000)),
+        Body::HorizLong => ((4 * c.dw + 3).min(70000), c.dh),
         Body::AlphaResizeCrop => (up(c.dw) + 2, up(c.dh) + 4),
         Body::MulAlpha | Body::DivAlphaInplace => (c.dw, c.dh),
     }
 }
 
 pub fn has_alpha(pt: Pt) -> bool {
-    matches!(pt, Pt::U8x4 | Pt::U16x2)
+    matches!(pt, Pt::U8x4 | Pt::U16x2 | Pt::U8x2)
 }
 
 pub fn applicable(c: &Case) -> bool {
@@ -213,6 +223,25 @@ impl Px for U8x4 {
         U8x4::new([b; 4])
     }
 }
+impl Px for U8x2 {
+    fn gen(s: &mut u64) -> Self {
+        let r = lcg(s);
+        let a = [0u8, 255, 128, 1, 200, 255][(r >> 40) as usize % 6];
+        U8x2::new([r as u8, a])
+    }
+    fn sentinel(b: u8) -> Self {
+        U8x2::new([b; 2])
+    }
+}
+impl Px for U8x3 {
+    fn gen(s: &mut u64) -> Self {
+        let r = lcg(s);
+        U8x3::new([r as u8, (r >> 8) as u8, (r >> 16) as u8])
+    }
+    fn sentinel(b: u8) -> Self {
+        U8x3::new([b; 3])
+    }
+}
 impl Px for U16x2 {
     fn gen(s: &mut u64) -> Self {
         let r = lcg(s);
@@ -240,6 +269,7 @@ pub fn options(c: &Case) -> ResizeOptions {
         Body::HorizCrop => o.resize_alg(ResizeAlg::Convolution(FilterType::Bilinear)).use_alpha(true).crop(0.0, 5.0, sw as f64, c.dh as f64),
         Body::AlphaResizeCrop => o.resize_alg(ResizeAlg::Convolution(FilterType::CatmullRom)).use_alpha(true).crop(1.0, 3.0, sw as f64 - 2.0, sh as f64 - 4.0),
         Body::Horiz | Body::Vert => o.resize_alg(ResizeAlg::Convolution(FilterType::Bilinear)).use_alpha(false),
+        Body::HorizLong => o.resize_alg(ResizeAlg::Convolution(FilterType::Lanczos3)).use_alpha(false),
         Body::TwoPass => o.resize_alg(ResizeAlg::Convolution(FilterType::Lanczos3)).use_alpha(false),
         Body::AlphaResize => o.resize_alg(ResizeAlg::Convolution(FilterType::CatmullRom)).use_alpha(true),
         Body::Nearest => o.resize_alg(ResizeAlg::Nearest),
@@ -389,6 +419,8 @@ pub fn run_body_pt(c: &Case, dst_kind: &DstKind, sentinel: u8, expose: Option<&(
         Pt::U8 => run_body::<U8>(c, dst_kind, sentinel, expose),
         Pt::U8x4 => run_body::<U8x4>(c, dst_kind, sentinel, expose),
         Pt::U16x2 => run_body::<U16x2>(c, dst_kind, sentinel, expose),
+        Pt::U8x2 => run_body::<U8x2>(c, dst_kind, sentinel, expose),
+        Pt::U8x3 => run_body::<U8x3>(c, dst_kind, sentinel, expose),
         Pt::F32 => run_body::<F32>(c, dst_kind, sentinel, expose),
     }
 }
@@ -397,6 +429,8 @@ pub fn psize(pt: Pt) -> usize {
     match pt {
         Pt::U8 => 1,
         Pt::U8x4 | Pt::U16x2 | Pt::F32 => 4,
+        Pt::U8x2 => 2,
+        Pt::U8x3 => 3,
     }
 }
 
